@@ -27,17 +27,17 @@ def check_c20(tier, replay=None):
     rep = Report('C20', tier)
     nsh = 16
     shards = list(range(nsh))
-    lo, hi = (2, 13) if tier == 'quick' else (4, 11)
+    lo, hi = (2, 14) if tier == 'quick' else (4, 12)
     res = run_shards('StoneWhitelist',
                      lambda s: dict(spec='Spec', constants={'Shard': s, 'NShards': nsh, 'EmitVectors': True, 'Lo': lo, 'Hi': hi},
                                     invariants=['ContainsSeeds', 'Closed', 'Minimal', 'OpAgrees'], constraints=['Emit']),
                      shards, 'wlcheck.WhitelistJudge', {}, tlc_kwargs={'timeout': 6000})
     agg = merge(res)
-    rep.add_tlc('StoneWhitelist', agg, {'edges': 15, 'whitelists': 39, 'edge_sets': 'at most %d or at least %d of 15 switches on' % (lo, hi)})
+    rep.add_tlc('StoneWhitelist', agg, {'edges': 16, 'whitelists': 39, 'edge_sets': 'at most %d or at least %d of 16 switches on' % (lo, hi)})
     rep.add_judged(agg)
     rep.exhaustive = False
-    rep.coverage_extra['rule'] = ('edge sets with few or almost all of 15 switches (14 dependency edges: field type direct / List / Map+nullable / alias; parent; '
-                                  'enumerated subtypes; tag-default union; :type: on a type, :field: on a field, :route: on a type and on a '
+    rep.coverage_extra['rule'] = ('edge sets with few or almost all of 16 switches (15 dependency edges: field type direct / List / Map+nullable / alias; parent; '
+                                  'enumerated subtypes; tag-default union; :type: on a type and on an alias, :field: on a field, :route: on a type and on a '
                                   'route, namespace doc; route error type; cross-namespace; plus route signatures naming their type inside Map/List/nullable) x 39 whitelists (route subsets incl. *, data type '
                                   'subsets, both namespaces): retained types and routes compared with StoneWhitelist!Closure; dangling '
                                   'references searched on the real object graph; python_types output of the filtered Api imported')
